@@ -27,6 +27,13 @@ def plan_batches(steps, R, P, faulty):
         steps.append({'k': 'msg', 'op': op, 'knobs': {}, 'path': 'str', 'merge': False, 'extra': True})
         return len(_store_steps(steps)) - 1
 
+    if create['mid'] > 3 and R.random() < 0.3:
+        # a message filed with an id lower than the roCreate's: it sorts - and is applied - first
+        low = create['mid'] - R.randint(1, min(create['mid'] - 1, 50))
+        steps.append({'k': 'msg', 'op': {'type': R.choice(['ReadyToAir', 'StoryDelete']), 'ro_id': ro_id, 'mid': low, 'env': {},
+                                          'sources': ['nosuch-early'], 'shapes': {}},
+                      'knobs': {}, 'path': 'str', 'merge': False, 'extra': True})
+        st = _store_steps(steps)
     usable = [i for i, s in enumerate(st) if s['op']['type'] != 'Raw' and not s.get('corrupt') and not s['op'].get('malformed') and not s.get('remid')]
     n_batches = R.choice([1, 1, 2, 3])
     for _ in range(n_batches):
